@@ -210,11 +210,14 @@ protected:
 template<typename T, typename Base>
 inline void shared_future<T,Base>::resolve_cb::charge(std::shared_ptr<future_internal> ptr) {
         this->set_resume_fn([](awaiter *x, auto) noexcept -> suspend_point<void>{
+            COCLS_VERIF_POINT("sf_clr");
             static_cast<resolve_cb *>(x)->_ptr = nullptr;
             return {};
         });
+       COCLS_VERIF_POINT("sf_set");
        _ptr = ptr;
        if (!(ptr->operator co_await()).subscribe(&ptr->resolve_tracer)) {
+           COCLS_VERIF_POINT("sf_dec");
            _ptr = nullptr;
       }
 }
